@@ -563,6 +563,25 @@ def AccV.new (ceilEps ceilDelta : PyVal) (prior : List (PyVal × PyVal)) : Excep
   let cd ← needReal ceilDelta
   prior.foldlM (fun a p => a.spend (pairEnv p.1 p.2)) ⟨ce, cd, []⟩
 
+/-- `for epsilon, delta in spent_budget: check_epsilon_delta(epsilon, delta)` -/
+def validateItems : List (PyVal × PyVal) → Except VErr Unit
+  | [] => .ok ()
+  | p :: rest =>
+    match runChain (pairEnv p.1 p.2) (checkEpsilonDelta false) with
+    | .error e => .error e
+    | .ok _ => validateItems rest
+
+/-- the validation performed by `total(spent_budget=items, slack=slack)` on an accountant in ANY state: every item of
+the caller-supplied list goes through `check_epsilon_delta`, in order, then the slack (when given) is range-checked
+against the accountant's delta -/
+def AccV.totalGiven (a : AccV) (items : List (PyVal × PyVal)) (slack : Option PyVal) : Except VErr Unit := do
+  validateItems items
+  match slack with
+  | Option.none => pure ()
+  | some sl =>
+    runChain ⟨fun x => if x = .slack then sl else if x = .delta then .flt a.ceilDelta else .int 1, fun _ => false⟩
+      slackChain
+
 /-- a tool / estimator entry: `check_bounds(bounds)` (when it has bounds) and `accountant.check(epsilon, 0)` precede
 every mechanism call -/
 def toolEntry (a : AccV) (bounds : Option (PyVal × PyVal)) (env : Env) : Except VErr Unit := do
